@@ -5,7 +5,9 @@
 #include <string.h>
 #include <unistd.h>
 
-hx_ctx_t HX;
+__thread hx_ctx_t HX;
+__thread char *HX_FAILBUF;
+__thread size_t HX_FAILCAP;
 
 static void sanitize(char *s) {
   for (; *s; s++)
@@ -39,6 +41,11 @@ void hx_fail(const char *key, const char *fmt, ...) {
   va_end(ap);
   sanitize(buf);
   HX.nfail++;
+  if (HX_FAILBUF) {
+    size_t l = strlen(HX_FAILBUF);
+    if (l + strlen(key) + 300 < HX_FAILCAP) snprintf(HX_FAILBUF + l, HX_FAILCAP - l, "%s\t%.250s\n", key, buf);
+    return;
+  }
   printf("F\t%ld\t%s\t%s\n", HX.idx, key, buf);
   fflush(stdout);
 }
